@@ -24,7 +24,10 @@ type Property struct {
 
 var registry = map[string]*Property{}
 
-func register(p *Property) { registry[p.ID] = p }
+func register(p *Property) {
+	p.Explain += explainMore[p.ID]
+	registry[p.ID] = p
+}
 
 // Get returns the property check for id.
 func Get(id string) *Property { return registry[id] }
